@@ -242,6 +242,21 @@ func applyDocEdit(doc *JV, op Op) bool {
 		}
 		doc.Set("discounts", &JV{K: 'a', A: []*JV{{K: 'o', M: []JM{{"percent", JStr(op.S2)}, {"reason", JStr("document discount")}}}}})
 		return true
+	case "docfixed":
+		// a document-level discount or charge given as a fixed amount with more decimals than the currency
+		if doc.Get("lines") == nil {
+			return false
+		}
+		key := "discounts"
+		if op.I%2 == 1 {
+			key = "charges"
+		}
+		e := &JV{K: 'o', M: []JM{{"amount", JStr(op.S2)}, {"reason", JStr("fixed amount")}}}
+		if op.I%4 < 2 {
+			e.Set("taxes", &JV{K: 'a', A: []*JV{{K: 'o', M: []JM{{"cat", JStr("VAT")}, {"rate", JStr("standard")}}}}})
+		}
+		doc.Set(key, &JV{K: 'a', A: []*JV{e}})
+		return true
 	case "advances":
 		// several percentage advances whose amounts have sub-cent remainders
 		if doc.Get("lines") == nil || doc.Get("totals") == nil && doc.Get("supplier") == nil {
@@ -406,7 +421,11 @@ func applyDocEdit(doc *JV, op Op) bool {
 	case "inboxweird":
 		for _, pk := range []string{"customer", "supplier"} {
 			if p := doc.Get(pk); p != nil {
-				p.Set("inboxes", &JV{K: 'a', A: []*JV{{K: 'o', M: []JM{{"code", JStr(op.S2)}}}}})
+				m := []JM{{"code", JStr(op.S2)}}
+				if op.I%2 == 1 {
+					m = append([]JM{{"key", JStr("peppol")}}, m...)
+				}
+				p.Set("inboxes", &JV{K: 'a', A: []*JV{{K: 'o', M: m}}})
 				return true
 			}
 		}
@@ -468,7 +487,7 @@ func applyDocEdit(doc *JV, op Op) bool {
 	return false
 }
 
-var editKinds = []string{"qty", "price", "rmline", "dupline", "note", "rounding", "custname", "code", "breakdown", "linedisc", "linecharge", "docdisc", "advances", "codeweird", "addrweird", "taxidweird", "amountprec", "mixrates", "mixrates", "rmdefaulted", "sloppy", "sloppy", "sloppy", "inboxweird", "scenario", "scenario", "fx", "valuedate", "transplant", "transplant"}
+var editKinds = []string{"qty", "price", "rmline", "dupline", "note", "rounding", "custname", "code", "breakdown", "linedisc", "linecharge", "docdisc", "advances", "codeweird", "addrweird", "taxidweird", "amountprec", "mixrates", "mixrates", "rmdefaulted", "sloppy", "sloppy", "sloppy", "inboxweird", "scenario", "scenario", "fx", "valuedate", "transplant", "transplant", "docfixed"}
 
 func genEdit(r *rand.Rand, id int) Op {
 	k := Pick(r, editKinds)
@@ -500,6 +519,8 @@ func genEdit(r *rand.Rand, id int) Op {
 		op.S2 = Pick(r, []string{"type", "currency", "$regime", "type", "tax"})
 	case "sloppy":
 		op.I, op.J = int64(r.IntN(1<<16)), int64(r.IntN(7))
+	case "docfixed":
+		op.S2 = Pick(r, []string{"10.126", "0.005", "3.14159", "7.5", "12.3449"})
 	case "transplant":
 		op.I, op.J, op.N = int64(r.IntN(1<<12)), int64(r.IntN(1<<12)), int64(r.IntN(4))
 	case "valuedate":
@@ -509,7 +530,7 @@ func genEdit(r *rand.Rand, id int) Op {
 	case "scenario":
 		op.I, op.J, op.N = int64(r.IntN(1<<12)), int64(r.IntN(1<<12)), int64(r.IntN(1<<12))
 	case "inboxweird":
-		op.S2 = Pick(r, []string{"0088:0192:123456", "0088:4012345678901", " 9915:abc ", "ab1234:xyz", "1234:"})
+		op.S2 = Pick(r, []string{"0088:0192:123456", "0088:4012345678901", " 9915:abc ", "ab1234:xyz", "1234:", "example.com ", " billing@example.com", "example..com", "inbox.example.com/a  b"})
 	}
 	return op
 }
